@@ -42,6 +42,8 @@ func propC08(w *World, r *Report) {
 	RunNarrowBound(w, r, succ, br08)
 	RunControl(r, "narrowbound", "ctlWrapBound|", func(cw *World, rr *Report, fns []*ssa.Function) { RunNarrowBound(cw, rr, fns, newBoundsRun(cw)) })
 	checkTagPad(w, r)
+	RunPrevSentinel(w, r, enc)
+	r.Floor("prevsentinel", 1)
 	RunIterFresh(w, r, enc)
 	RunIterFreshControl(r)
 	r.Floor("deadguard", 10)
